@@ -18,6 +18,7 @@ type Env struct {
 	pkg   *types.Package
 	bound map[string]bool // SMT-bound variable names (for pattern inference)
 	depth int
+	prev  *Env // state at the loop head (step clauses)
 }
 
 func (e *Env) child() *Env {
@@ -776,6 +777,33 @@ func (e *Env) call(x *SExpr) Val {
 				return boolVal(fmt.Sprintf("(= (i.tag %s) %s)", a.T, e.sorts().typeTag(t)))
 			case "unfold":
 				return e.tr(x.Args[0])
+			case "prev":
+				if e.prev == nil {
+					e.fail(x, "prev() is only available in loop step clauses")
+				}
+				pe := *e.prev
+				pe.vars = map[string]Val{}
+				for k, v := range e.prev.vars {
+					pe.vars[k] = v
+				}
+				// quantifier-bound variables of the enclosing formula stay visible
+				for k, v := range e.vars {
+					if _, isParam := e.fg.params[k]; !isParam {
+						if _, has := pe.vars[k]; !has {
+							pe.vars[k] = v
+						}
+					}
+				}
+				return pe.tr(x.Args[0])
+			case "has":
+				m := e.tr(x.Args[0])
+				mt, ok := types.Unalias(m.Ty).Underlying().(*types.Map)
+				if !ok {
+					e.fail(x, "has() needs a map")
+				}
+				k := e.coerce(e.tr(x.Args[1]), mt.Key())
+				mv, _ := fg.mapFamilies(mt)
+				return boolVal(fmt.Sprintf("(and (not (= %s 0)) (select (select %s %s) %s))", m.T, fg.heap(e.st, mapPresence(mv), ""), m.T, k.T))
 			}
 			if sf, ok := fg.g.ct.Funcs[name]; ok {
 				var args []Val
